@@ -5,6 +5,7 @@ import (
 	"database/sql"
 	"strconv"
 	"strings"
+	"time"
 
 	"github.com/jdillenkofer/pithos/internal/checksumutils"
 	"github.com/jdillenkofer/pithos/internal/ptrutils"
@@ -375,6 +376,9 @@ func (sms *sqlMetadataStore) CompleteMultipartUpload(ctx context.Context, tx *sq
 	objectEntity.ChecksumSHA1 = calculatedChecksums.ChecksumSHA1
 	objectEntity.ChecksumSHA256 = calculatedChecksums.ChecksumSHA256
 	objectEntity.ChecksumType = ptrutils.ToPtr(checksumType)
+	// The pending row becomes the object now; a zero UpdatedAt makes the
+	// repository stamp the completion time as its Last-Modified.
+	objectEntity.UpdatedAt = time.Time{}
 
 	err = sms.objectRepository.SaveObject(ctx, tx, objectEntity)
 	if err != nil {
